@@ -32,10 +32,15 @@ Definition on_tunnel0 (e : N * ev) : bool :=
   end.
 Definition tunnel0 (tr : trace) : trace := filter on_tunnel0 tr.
 
+(* the tunnel ended with an error during the batch of action [act] - unless that batch also contains
+   a cause of its own (transport failure, marshal error, ...), which then explains the end *)
 Definition ended_with_error_at (act : N) (tr : trace) : bool :=
   existsb (fun e => match e with
                     | (a, ServeRet _ _ r) | (a, NetSrvRet _ r) => N.eqb a act && negb (res_is_ok r)
-                    | _ => false end) tr.
+                    | _ => false end) tr &&
+  negb (existsb (fun e => match e with
+                          | (a, Stim StMarshal _ _ _) | (a, Stim StFail _ _ _) | (a, Stim StCtxEnd _ _ _) => N.eqb a act
+                          | _ => false end) tr).
 Definition chan_error_at (act : N) (tr : trace) : bool :=
   existsb (fun e => match e with
                     | (a, ChanDone _ r) => N.eqb a act && negb (res_is_ok r)
@@ -54,7 +59,7 @@ Definition tables_step (tr : trace) (s : tstate) (e : N * ev) : tstate :=
   let '(act, e) := e in
   match e with
   | Emit C2S _ id k true => mkT (t_tab s) (t_closing s) (t_dead s) (t_q s ++ [(id, k)]) (t_fails s)
-  | Stim StFail _ _ _ | Stim StCtxEnd _ _ _ => mkT (t_tab s) (t_closing s) true [] (t_fails s)
+  | Stim StFail _ _ _ | Stim StCtxEnd _ _ _ | Stim StMarshal _ _ _ => mkT (t_tab s) (t_closing s) true [] (t_fails s)
   | Stim StShutdown _ _ _ => mkT (t_tab s) true (t_dead s) (t_q s) (t_fails s)
   | Stim StStop _ _ _ => mkT (t_tab s) true true (t_q s) (t_fails s)   (* Stop half-closes: nothing can be answered any more *)
   | ServeRet _ _ _ => mkT (t_tab s) (t_closing s) true (t_q s) (t_fails s)
@@ -116,7 +121,7 @@ Definition ctable_step (c : cfg) (tr : trace) (s : cstate) (e : N * ev) : cstate
   | Emit C2S _ id (KNew _ _ _ _ _) _ =>
       mkC (Z.max (c_lastid s) id) true (c_deadc s) (c_q s) (c_first s) (c_fails s)
   | Emit S2C _ id k true => mkC (c_lastid s) (c_made s) (c_deadc s) (c_q s ++ [(id, k)]) (c_first s) (c_fails s)
-  | Stim StFail _ _ _ | Stim StCtxEnd _ _ _ | Stim StChClose _ _ _ => mkC (c_lastid s) (c_made s) true [] (c_first s) (c_fails s)
+  | Stim StFail _ _ _ | Stim StCtxEnd _ _ _ | Stim StChClose _ _ _ | Stim StMarshal _ _ _ => mkC (c_lastid s) (c_made s) true [] (c_first s) (c_fails s)
   | Deliver S2C _ 1 =>
       match c_q s with
       | [] => s
@@ -211,7 +216,7 @@ Definition overrun_step (tr : trace) (s : ostate) (e : N * ev) : ostate :=
   if os_dead s then s else
   match e with
   | Emit C2S t id k true => mkOs (os_streams s) (os_q s ++ [(t, (id, k))]) (os_fails s) (os_dead s)
-  | Stim StFail _ _ _ | Stim StCtxEnd _ _ _ | Stim StStop _ _ _ | Stim StChClose _ _ _ | ServeRet _ _ _ | NetSrvRet _ _ | ChanDone _ _ =>
+  | Stim StFail _ _ _ | Stim StCtxEnd _ _ _ | Stim StStop _ _ _ | Stim StChClose _ _ _ | Stim StMarshal _ _ _ | ServeRet _ _ _ | NetSrvRet _ _ | ChanDone _ _ =>
       mkOs (os_streams s) [] (os_fails s) true
   | Emit S2C t id (KClose _ _) _ =>
       match oget (t, id) (os_streams s) with
@@ -425,7 +430,7 @@ Definition pipe_mon_step (c : cfg) (cwin_t : N) (m : pmon) (e : N * ev) : pmon :
           end
       | _ => m
       end
-  | Stim StFail t _ _ | Stim StCtxEnd t _ _ | Stim StChClose t _ _ | Stim StStop t _ _ | ServeRet t _ _ | NetSrvRet t _ | ChanDone t _ =>
+  | Stim StFail t _ _ | Stim StCtxEnd t _ _ | Stim StChClose t _ _ | Stim StStop t _ _ | Stim StMarshal t _ _ | ServeRet t _ _ | NetSrvRet t _ | ChanDone t _ =>
       mkPm (map (fun o => if N.eqb (fst (fst (ps_key o))) t then mkPs (ps_key o) (ps_st o) false else o) (pm_streams m))
            (filter (fun x => negb (N.eqb (fst (fst x)) t)) (pm_q m)) (pm_fails m)
   | Ret (Cx r) OCancel _ _ _ _ _ _ _ _ => m
